@@ -490,6 +490,17 @@ theorem WF.new (h : Heap) (new : List Exon) (n : Nat) (hn : new.length = n) :
     WF (h ++ [new]) ⟨h.length, 0, n⟩ :=
   ⟨by simp, by simp [arr_append_eq, hn]⟩
 
+/-- a slice stays well-formed when the heap only gains arrays and its own array is kept -/
+theorem WF.of_keeps {h h' : Heap} {s : Slice} (w : WF h s) (k : Keeps h.length h h') : WF h' s :=
+  ⟨Nat.lt_of_lt_of_le w.arr_lt k.1, by rw [k.2 _ w.arr_lt]; exact w.fits⟩
+
+/-- `s[:min(j, cap(s))]` of a well-formed slice is well-formed (same array, same offset) -/
+theorem resliceTo_wf {h : Heap} {s : Slice} (w : WF h s) (j : Nat) : WF h (resliceTo h s j) := by
+  refine ⟨w.arr_lt, ?_⟩
+  have := w.fits
+  simp only [resliceTo, cap, cells, List.length_drop]
+  omega
+
 /-- after `Add` (driver instance) both the receiver and the returned slice are well-formed -/
 theorem add_wf {h : Heap} {s : Slice} (w : WF h s) (xs : List Exon) :
     WF (add h s xs).1 s ∧ WF (add h s xs).1 (add h s xs).2.1 := by
@@ -536,6 +547,37 @@ theorem xsRun_wf {st : Heap × Slice} (w : WF st.1 st.2) (ops : List XsOp) :
   induction ops generalizing st with
   | nil => exact w
   | cons op ops ih => exact ih (xsApply_wf w op)
+
+/-- histories with `held`: both `s` and `held` are slices of the heap -/
+theorem xhApply_wf {st : (Heap × Slice) × Slice} (w : WF st.1.1 st.1.2) (wh : st.2.arr < st.1.1.length)
+    (op : XhOp) : WF (xhApply st op).1.1 (xhApply st op).1.2 ∧ (xhApply st op).2.arr < (xhApply st op).1.1.length := by
+  cases op with
+  | hold => exact ⟨w, w.arr_lt⟩
+  | op o =>
+    refine ⟨xsApply_wf w o, ?_⟩
+    simp only [xhApply]
+    cases o with
+    | add xs keep =>
+      have hk := addWith_keeps exactGrow sortByStart st.1.1 st.1.2 xs
+      change Keeps st.1.1.length st.1.1 (add st.1.1 st.1.2 xs).1 at hk
+      simp only [xsApply]
+      generalize add st.1.1 st.1.2 xs = p at hk
+      obtain ⟨h', r, e⟩ := p
+      exact Nat.lt_of_lt_of_le wh hk.1
+    | upTo j => exact wh
+    | drop j => exact wh
+
+theorem xhInit_wf (n : Nat) (cells0 : List Exon) (hn : n ≤ cells0.length) :
+    WF (xhInit n cells0).1.1 (xhInit n cells0).1.2 ∧ (xhInit n cells0).2.arr < (xhInit n cells0).1.1.length :=
+  ⟨xsInit_wf n cells0 hn, by simp [xhInit, xsInit, Heap.init, Slice.nil]⟩
+
+theorem xhRun_wf {st : (Heap × Slice) × Slice} (w : WF st.1.1 st.1.2) (wh : st.2.arr < st.1.1.length)
+    (ops : List XhOp) : WF (xhRun st ops).1.1 (xhRun st ops).1.2 ∧ (xhRun st ops).2.arr < (xhRun st ops).1.1.length := by
+  induction ops generalizing st with
+  | nil => exact ⟨w, wh⟩
+  | cons op ops ih =>
+    have := xhApply_wf w wh op
+    exact ih this.1 this.2
 
 /-- the transcript's exon slice is well-formed -/
 def TxWF (st : Heap × Tx) : Prop := WF st.1 st.2.exons
@@ -585,6 +627,15 @@ theorem txApply_wf {st : Heap × Tx} (w : TxWF st) (op : TxOp) : TxWF (txApply s
       generalize setExons h' st.2 (read h' r) = q at h2
       obtain ⟨h'', t', e'⟩ := q
       exact h2
+  | resliceAdd j xs =>
+    -- the receiver is `t.Exons()[:j]`; the transcript's own slice stays well-formed because
+    -- `Add` only appends a new array to the heap
+    have hk := addWith_keeps exactGrow sortByStart st.1 (resliceTo st.1 st.2.exons j) xs
+    simp only [txApply]
+    change Keeps st.1.length st.1 (add st.1 (resliceTo st.1 st.2.exons j) xs).1 at hk
+    generalize add st.1 (resliceTo st.1 st.2.exons j) xs = p at hk
+    obtain ⟨h', r, e⟩ := p
+    exact w.of_keeps hk
 
 theorem txInit_wf (id : Nat) : TxWF (txInit id) :=
   ⟨by simp [txInit, Heap.init, Slice.nil], by simp [txInit, Slice.nil]⟩
